@@ -228,6 +228,7 @@ func (e *engine) report() {
 	bySig := map[string]int{}
 	var writes, bytesOut int
 	samples := 0
+	var unstable []string
 	for i, u := range e.units {
 		r := e.results[u]
 		fs := fams[u.Family]
@@ -238,6 +239,7 @@ func (e *engine) report() {
 		fs.Units++
 		if r.unstable {
 			fs.Unstable++
+			unstable = append(unstable, u.ID)
 			continue
 		}
 		writes += len(u.writes)
@@ -277,6 +279,9 @@ func (e *engine) report() {
 	}
 	if notReached > 0 {
 		ctx.ToolError("%d fault points were not reached although the fault-free run has them (nondeterministic rendering?)", notReached)
+	}
+	if len(unstable) > 0 {
+		ctx.Extra["templates_not_judged_unstable_fault_free_output"] = unstable
 	}
 	ctx.Extra["families"] = fams
 	ctx.Extra["fault_points_by_site_kind"] = bySite
